@@ -117,15 +117,20 @@ impl<'b, 'tx> BucketName<'b, 'tx> {
     }
 }
 
+// The returned bytes are only bound to the DB's lifetime, not the transaction's,
+// so they must not point into the transaction's memory map.
 impl<'b, 'tx> ToBytes<'tx> for BucketName<'b, 'tx> {
     fn to_bytes(self) -> Bytes<'tx> {
-        self.name
+        (&self).to_bytes()
     }
 }
 
 impl<'b, 'tx> ToBytes<'tx> for &BucketName<'b, 'tx> {
     fn to_bytes(self) -> Bytes<'tx> {
-        self.name.clone()
+        match &self.name {
+            Bytes::Slice(s) => Bytes::Bytes(bytes::Bytes::copy_from_slice(s)),
+            owned => owned.clone(),
+        }
     }
 }
 
